@@ -21,6 +21,13 @@ def _basis(name, shapeset, mult, nmult, E, idx):
 
 def kernels(ctx):
     """The four element kernels accumulate sum_q (basis products) * w_q * J into slot nt*nr*E# + i*nr + j."""
+    from . import extents, selectk
+
+    if "IDX-EXTENT" not in getattr(ctx, "_extent_done", set()):
+        ctx._extent_done = {"IDX-EXTENT"}
+        extents.index_extents(ctx)
+        selectk.select_modes(ctx)
+    selectk.sparse_forward(ctx)
     reg = K.registries(ctx)["kernel_functions_sparse"]
     r = ctx.rule("SPARSE-KERNELS", "sparse element kernels: result[nshape*k + i*ntrial + j] += sum over components and points of test basis * trial basis * weight * integration element", 4)
     nt, nr = opaque_atom("#nshape_test"), opaque_atom("#nshape_trial")
